@@ -152,7 +152,29 @@ EXTRA = {
  "C19": "Every history also with texts passed as shared slices (aliasing mode); far states of 7..130 distinct tags x continuations of depth <= 2; near-miss equality variants on 7..130-entry lists; thorough depth 6.",
  "C20": "Two further positions: several times inside a 70-member list and inside the long lists of a collection.",
 }
+# presentation axes added after the fourth round (DESIGN.md §8.9)
+EXTRA2 = {
+ "C01": "Presentation axes: IRI forms (IPv6 literals, default ports, userinfo, non-ASCII, upper-case scheme, empty fragment/query, percent-encoding) in every IRI-bearing position; generic type names; list forms (pointer lists, lists of one, windows of one backing array); language tags with subtags, untagged+tagged lists.",
+ "C02": "27 hostile strings (ill-formed UTF-8 of every kind, format characters), also as the only member of a list in single-item and list properties; IRI forms and list forms.",
+ "C03": "IRI forms, generic type names and list forms as in C01.",
+ "C04": "Language-map keys with subtags and malformed tags; codec chains (re-decode what the library writes for a decoded value, both codecs).",
+ "C05": "Every level-1 / saturated document in six further legal presentations (white space, \\uXXXX escapes everywhere, reversed member order, null members, @context, zone offsets with fractions); IRI forms; generic type names.",
+ "C06": "42 tokens (format and bidi characters in texts of length <= 2 and at every boundary offset); forms with one untagged and one tagged entry.",
+ "C07": "13 channels: also escaped spellings of every string, and arrays in which a non-vocabulary member precedes or surrounds the value.",
+ "C09": "Ids differing only inside an IPv6 literal / port / query value; sub-second instant changes.",
+ "C11": "Pointer-to-list form of single-item positions; list properties as windows of one shared backing array.",
+ "C12": "Leaf-type methods (every niladic marshaler/String/observer of language lists, entries, texts, tags, IRIs, media types, nested structs) as read-only operations.",
+ "C13": "A pool whose ids differ only inside the authority or a query value.",
+ "C14": "Host grid: IPv6 literals (address, case, port), explicit default ports, dot segments, query values ending in a slash.",
+ "C15": "Owners with explicit default ports and IPv6 literal hosts.",
+ "C16": "Plain IRIs in other spellings (as:Public, IPv6) among the entries.",
+ "C17": "Equal deciding instants with different ids and types.",
+ "C18": "An accepted merge (equivalent but differently spelled ids) leaves to with exactly from's id and type.",
+ "C20": "Positions: only member of a list, only member of every list property.",
+}
 for pid, extra in EXTRA.items():
+    checks[pid]["level_claimed"]["text"] += " " + extra
+for pid, extra in EXTRA2.items():
     checks[pid]["level_claimed"]["text"] += " " + extra
 
 manifest = {
